@@ -223,7 +223,7 @@ def run_tier(tier, t0):
             "without an error handler the reader reports through the logging module (records captured at the root logger)",
         ],
         vacuity=[
-            ("runs with >=2 handler calls and runs with none", any(e >= 2 for (_, e) in acc.outcomes) and any(e == 0 for (_, e) in acc.outcomes)),
+            ("runs with >=2 handler calls and runs with none", any(k[-1] >= 2 for k in acc.outcomes) and any(k[-1] == 0 for k in acc.outcomes)),
         ],
         extra_cov={"bounds": {"L": L, "token_depth_clean": k, "token_depth_fragments": kf}},
     )
